@@ -25,6 +25,12 @@ def c03(c):
         "close causes are equal as far as closeWithError is concerned: timers, the poller's EOF / read error and Stop's jobs call "
         "closeWithError(err) exactly as CloseWithError(err) does; the simulated tier uses CloseWithError with those errors, the "
         "real-engine tier real deadlines, real peer close / reset and Engine.Stop",
+        "close-burst cells (cmd/lifecycle/burst.go): connections on simulated descriptors, but the engine's REAL OnOpen / OnClose wrappers and the "
+        "real timer.Timer.Async queue; K close notifications (K around 1024 / 2048 and random in 1000..2100) queue behind a blocked first handler, "
+        "then more connections are closed while the burst's last handler runs; exactly one notification per connection, no overlap of handlers; "
+        "the cell in flight is recorded (hx.Current) so that a process death is reported with it",
+        "real-engine mode ET+ASYNCREAD+SYNCEXEC: Config.IOExecute runs the read task synchronously in the poller goroutine (peer close / reset, "
+        "write failure, Close in the data handler, racing closers)",
         "Go harness cmd/lifecycle (generator, per-connection event logs in real-time order, error identities, /proc/self/fd inspection, "
         "a listener with a full accept queue as the target of dials that must not complete)",
     ]
